@@ -106,10 +106,11 @@ class UnitRun:
         """emit + verify; a function whose anchors are lost or which leaves Verus's subset (front-end error inside
         its span) is re-emitted as an assumed declaration and recorded in self.undecidable (DESIGN 2.4)"""
         self.undecidable = dict(force_assumed or {})
+        self.nocontract = {}
         for attempt in range(12):
             try:
                 em = Emitter(REPO, os.path.join(CONTRACTS, self.unit + ".vt"), checks_value=self.checks, probe=self.probe,
-                             sabotage=self.sabotage, force_assumed=self.undecidable)
+                             sabotage=self.sabotage, force_assumed=self.undecidable, force_nocontract=self.nocontract)
                 self.em = em
                 text = em.emit()
             except LostAnchor as e:
@@ -133,7 +134,7 @@ class UnitRun:
                 culprits = set()
                 for b in cl["front_end"]:
                     fns = set(filter(None, (self.span_of_line(l) for l in lines_of(b))))
-                    fns = {f for f in fns if any(m["qual"] == f and not m["assumed"] for m in em.functions)}
+                    fns = {f for f in fns if any(m["qual"] == f and (not m["assumed"] or (f in self.undecidable and f not in self.nocontract)) for m in em.functions)}
                     if not fns:
                         culprits = None
                         break
@@ -144,6 +145,17 @@ class UnitRun:
                 if culprits:
                     new = False
                     for c in culprits:
+                        if c in self.undecidable and c not in self.nocontract:
+                            # already an assumed declaration and the error is still inside its span: the CONTRACT does not type-check
+                            # (an edit changed the parameter list).  Drop the contract, and make every function of the unit that
+                            # mentions it undecidable as well (it would otherwise be verified against a callee without contract and
+                            # fail for no semantic reason - a false alarm).
+                            self.nocontract[c] = self.undecidable[c]
+                            short = c.split("::")[-1]
+                            for m in em.functions:
+                                if m["qual"] != c and not m["assumed"] and re.search(r"\b%s\b" % re.escape(short), m.get("orig_body") or ""):
+                                    self.undecidable.setdefault(m["qual"], "calls %s, whose parameter list changed (its contract no longer type-checks)" % c)
+                            new = True
                         if c not in self.undecidable:
                             first = next((l for b in cl["front_end"] for l in b.split("\n") if l.startswith("error")), cl["front_end"][0].split("\n", 1)[0])
                             self.undecidable[c] = "outside Verus's subset after an edit (front-end error: %s)" % first[:160]
